@@ -170,7 +170,7 @@ theorem stream_never_traps_full_false :
     simp [CLegal, Host.End.legalImmediate, Host.BLOCKED]) h3
   obtain ⟨s4, e4, h4⟩ : ∃ s' e, s3.step .peerDrop = .ok s' e := ⟨_, _, rfl⟩
   have r4 := step .peerDrop r3 (by
-    simp only [f10Init, ChanSys.init] at h1; cases h1; cases h2; cases h3; exact ⟨rfl, rfl⟩) h4
+    simp only [f10Init, ChanSys.init] at h1; cases h1; cases h2; cases h3; exact ⟨rfl, rfl, fun _ => by decide⟩) h4
   obtain ⟨s5, e5, h5⟩ : ∃ s' e, s4.step .deliver = .ok s' e := by
     simp only [f10Init, ChanSys.init] at h1; cases h1; cases h2; cases h3; cases h4; exact ⟨_, _, rfl⟩
   have r5 := step .deliver r4 (by
